@@ -249,7 +249,8 @@ namespace avel {
     [[nodiscard]]
     AVEL_FINL std::uint32_t bit_ceil(std::uint32_t x) {
         #if defined(AVEL_LZCNT) && (defined(AVEL_GCC) || defined(AVEL_CLANG) || defined(AVEL_ICPX))
-        auto sh = (64 - _lzcnt_u64(std::uint64_t(x) - 1));
+        // x - (x != 0) keeps bit_ceil(0) == 1 and the shift amount below 64
+        auto sh = (64 - _lzcnt_u64(std::uint64_t(x) - (x != 0)));
         auto result = std::uint64_t(1) << sh;
         return result;
 
@@ -258,7 +259,7 @@ namespace avel {
             return 1;
         }
 
-        auto tmp = 1 << _bit_scan_reverse(x);
+        auto tmp = std::uint32_t(1) << _bit_scan_reverse(x);
         return tmp << (tmp != x);
 
         #elif defined(AVEL_MSVC)
